@@ -101,6 +101,8 @@ def txVerdict (cli : Bool) (input : Json) (istates : List Json) : Except String 
     let heads ← objPairs (fldD input "heads" (Json.mkObj []))
     let staged ← objPairs (fldD input "staged" (Json.mkObj []))
     let ops ← (← arrFld input "ops").mapM txOpOf
+    let unw := strsOf input "unwritable"
+    let unwStaged := staged.any (fun p => unw.contains p.1)
     let outStr := fun (o : TxOutcome) => if cli && o != .ok then "error" else outcomeStr o
     let init : TxSt := { heads := heads.map (fun p => (p.1, Cid.orig p.2)), staged := staged, logs := [], exists_ := true,
                          committed := false, objects := [] }
@@ -112,7 +114,10 @@ def txVerdict (cli : Bool) (input : Json) (istates : List Json) : Except String 
       | o :: rest, i :: irest =>
         let (s', oc) := if o.kind == "commit" then
             let (order, failAt) := commitPlan o s i
-            txCommit Facts.txCommitGuarded order failAt s
+            -- a staged commit that cannot be rewritten (its message does not fit once prefixed) and
+            -- is still to be applied makes the whole commit a refusal: nothing is written
+            let blocked := s.staged.any (fun p => unw.contains p.1 && !s.logs.any (fun l => l.branch == p.1))
+            if blocked then (s, TxOutcome.refused) else txCommit Facts.txCommitGuarded order failAt s
           else match discardPlan o s i with
             | none => txDiscard Facts.txDiscardGuardFirst s
             | some (delOrder, k) => txDiscardFault Facts.txDiscardGuardFirst delOrder k s
@@ -146,7 +151,11 @@ def txVerdict (cli : Bool) (input : Json) (istates : List Json) : Except String 
            | .ok l => staged.all (fun p => l.any (fun q => q.1 == p.1 && q.2 == 1)) && l.all (fun q => q.2 ≤ 1)
            | .error _ => false)) then [] else ["each-branch-logged-exactly-once"]) ++
       -- a failed commit followed by successful re-runs ends in the all-branches outcome
-      (if ops.any (fun o => o.kind == "commit" && o.healthy) && !ops.any (fun o => o.kind == "discard") then
+      -- a transaction holding a staged commit that cannot be rewritten can never be committed: it must
+      -- then not be committed in part either — no branch ever moves (all or nothing)
+      (if unwStaged && !istates.all (fun s => !isCommitted s && headsOf s == initHeadsJ.compress) then
+         ["uncommittable-transaction-moves-no-branch"] else []) ++
+      (if !unwStaged && ops.any (fun o => o.kind == "commit" && o.healthy) && !ops.any (fun o => o.kind == "discard") then
          (if isCommitted final && headsOf final == expHeadsJ.compress then [] else ["rerun-completes-to-all-branches-outcome"]) else []) ++
       -- a refused or successful discard never touches a branch; commit/discard of a committed transaction change nothing
       (if (pairs.zip ops).all (fun ((a, b), o) =>
